@@ -25,6 +25,7 @@ var dbTypes = []struct {
 	{"EXTERNAL_MANAGEMENT", signature.CERT_EXTERNAL_MANAGEMENT_GUID, "extmgmt"},
 	{"SHA1", signature.CERT_SHA1_GUID, "undecodable"},
 	{"UNKNOWN", util.EFIGUID{Data1: 0xdeadbeef, Data2: 0x1234, Data3: 0x5678, Data4: [8]byte{1, 2, 3, 4, 5, 6, 7, 8}}, "unknown"},
+	{"UNKNOWN2", util.EFIGUID{Data1: 0x0badcafe, Data2: 0x4321, Data3: 0x8765, Data4: [8]byte{8, 7, 6, 5, 4, 3, 2, 1}}, "unknown"},
 }
 
 var dbOwners = []util.EFIGUID{
@@ -88,6 +89,7 @@ var dbCompat = [][]int{
 	{6, 7, 8, 9, 10, 11, 6, 7, 8, 9, 10, 11, 14, 15, 16},
 	{12},
 	{13},
+	{0, 6, 12},
 	{0, 6, 12},
 }
 
@@ -156,7 +158,7 @@ func (e *dbhistEngine) Gen(seed uint64, tier string, run int) *Trace {
 	// swarm: enabled types, owners, op kinds
 	var types []int
 	for t := range dbTypes {
-		w := []int{9, 8, 2, 2, 2}[t]
+		w := []int{9, 8, 2, 2, 2, 2}[t]
 		if r.Chance(w, 10) {
 			types = append(types, t)
 		}
@@ -165,14 +167,14 @@ func (e *dbhistEngine) Gen(seed uint64, tier string, run int) *Trace {
 		types = []int{0}
 	}
 	nown := r.Range(1, 3)
-	opw := []int{10, 4, 8, 3, 5, 3, 3, 3, 1, 4} // Append AppendSignature Remove RemoveSignature BytesExists SigDataExists Exists AppendList AppendDatabase Restart
+	opw := []int{10, 4, 8, 3, 5, 3, 3, 3, 1, 4, 1} // Append AppendSignature Remove RemoveSignature BytesExists SigDataExists Exists AppendList AppendDatabase Restart Swap
 	for i := range opw {
 		if r.Chance(1, 5) {
 			opw[i] = 0
 		}
 	}
 	opw[0] |= 1
-	names := []string{"Append", "AppendSignature", "Remove", "RemoveSignature", "BytesExists", "SigDataExists", "Exists", "AppendList", "AppendDatabase", "Restart"}
+	names := []string{"Append", "AppendSignature", "Remove", "RemoveSignature", "BytesExists", "SigDataExists", "Exists", "AppendList", "AppendDatabase", "Restart", "Swap"}
 	var c dbCfg
 	switch r.Intn(6) {
 	case 0:
@@ -206,11 +208,25 @@ func (e *dbhistEngine) Gen(seed uint64, tier string, run int) *Trace {
 			}
 		case "Restart":
 			op.D = r.Intn(2)
+		case "Swap":
+			op.D = r.Intn(4)
 		default:
 			op.T, op.D = pickTD()
 			op.O = r.Intn(nown)
 		}
 		ops = append(ops, op)
+	}
+	if r.Chance(1, 12) {
+		// two databases from the start: the second one is merged into the (possibly still empty) first, and the history goes on on both
+		first := dbOp{Op: "AppendDatabase"}
+		for j := r.Range(1, 3); j > 0; j-- {
+			first.Lists = append(first.Lists, genListSpec(r, types, nown, false))
+		}
+		ops = append([]dbOp{first}, ops...)
+		for k := r.Range(1, 3); k > 0 && len(ops) > 2; k-- {
+			at := 1 + r.Intn(len(ops)-1)
+			ops = append(ops[:at], append([]dbOp{{Op: "Swap", D: r.Intn(4)}}, ops[at:]...)...)
+		}
 	}
 	return &Trace{Property: "C09", Engine: "dbhist", Seed: seed, Run: run, Tier: tier,
 		Cfg: mustJSON(c), Ops: rawList(ops), Faults: []json.RawMessage{}, Schedule: []json.RawMessage{}}
@@ -623,6 +639,10 @@ func (e *dbhistEngine) Exec(tr *Trace, x *X) {
 		x.Steps++
 		before := viewOf(db)
 		snap := dbSnapshot(db)
+		shadows := make([]dbShadow, len(aux))
+		for k, a := range aux {
+			shadows[k] = shadowOf(a, db)
+		}
 		kind := op.Op
 		sig := map[string]string{"level": "db", "type": typeSig(op.T % len(dbTypes))}
 		fail := func(oracle, format string, a ...any) {
@@ -861,6 +881,24 @@ func (e *dbhistEngine) Exec(tr *Trace, x *X) {
 				if n > 0 {
 					mut++
 				}
+			case "Swap":
+				// the history continues on one of the databases that were merged into this one; this one stays alive
+				if len(aux) == 0 {
+					return
+				}
+				k := op.D % len(aux)
+				for _, l := range *aux[k] {
+					if l == nil || len(l.Signatures) == 0 {
+						// a list this database shares with the other one was emptied over there: what that means for this
+						// database is outside the statement (it speaks about one database), so the history does not move here
+						x.Probe("swap_skipped_shared_list_was_emptied")
+						return
+					}
+				}
+				db, aux[k] = aux[k], db
+				shadows = nil
+				x.Logf("op %d Swap: the history continues on merged database %d (%d lists)", i, k, len(*db))
+				x.Probe("history_continues_on_merged_source")
 			case "Restart":
 				enc := db.Bytes()
 				// decode from a buffer the caller owns and goes on to reuse (Unmarshal's signature asks for one)
@@ -924,6 +962,17 @@ func (e *dbhistEngine) Exec(tr *Trace, x *X) {
 			fail(o, "after the operation: %s", d)
 			return
 		}
+		// a database changes under its own operations (and through lists it shares with the database operated on), never otherwise:
+		// the sequence of lists of every other live database is what it was, and so is every list that the operated database does not hold
+		for k := range shadows {
+			if k < len(aux) {
+				if d := shadows[k].diff(shadowOf(aux[k], nil)); d != "" {
+					sig["which"] = "other_database"
+					fail("dbhist.other_database_untouched", "database %d was not operated on (the operation went to a database it was once merged with), but %s", k, d)
+					return
+				}
+			}
+		}
 		// a database that was merged into this one is still a database of its own
 		for k, a := range aux {
 			if o, d := dbWellFormed(a); o != "" {
@@ -940,6 +989,49 @@ func (e *dbhistEngine) Exec(tr *Trace, x *X) {
 		x.State(h64(dbSnapshot(db)))
 	}
 	x.Nontriv = mut >= 2 && nonEmpty
+}
+
+// dbShadow is what an operation on ANOTHER database must leave alone: which lists the database holds, in which
+// order, and the content of those lists that the operated database does not hold as well.
+type dbShadow struct {
+	ptrs    []*signature.SignatureList
+	content []string // "" for lists shared with the operated database
+}
+
+func shadowOf(d, operated *signature.SignatureDatabase) dbShadow {
+	var sh dbShadow
+	for _, l := range *d {
+		shared := false
+		if operated != nil {
+			for _, m := range *operated {
+				if m == l {
+					shared = true
+				}
+			}
+		}
+		sh.ptrs = append(sh.ptrs, l)
+		if shared || l == nil {
+			sh.content = append(sh.content, "")
+		} else {
+			sh.content = append(sh.content, listSnapshot(l))
+		}
+	}
+	return sh
+}
+
+func (a dbShadow) diff(b dbShadow) string {
+	if len(a.ptrs) != len(b.ptrs) {
+		return fmt.Sprintf("it held %d lists before the operation and holds %d now", len(a.ptrs), len(b.ptrs))
+	}
+	for i := range a.ptrs {
+		if a.ptrs[i] != b.ptrs[i] {
+			return fmt.Sprintf("its list %d is another list object now", i)
+		}
+		if a.content[i] != "" && b.ptrs[i] != nil && a.content[i] != listSnapshot(b.ptrs[i]) {
+			return fmt.Sprintf("its list %d, which the operated database does not hold, changed", i)
+		}
+	}
+	return ""
 }
 
 func countLists(snap string) int { return bytes.Count([]byte(snap), []byte("[")) }
